@@ -97,6 +97,30 @@ def fd_oracle(res, sizes, kind):
     return None
 
 
+def stage_fd_text(ctx, stats, sigs):
+    """the same transports in unicode mode: a multi-byte character written byte by byte gives reads that deliver '' —
+    they are not the end of the stream; EOF comes only after everything the peer wrote has been delivered"""
+    text = 'h\u00e9\u20acllo \u65e5!'
+    raw = text.encode('utf-8')
+    for kind in ('fd', 'socket'):
+        script = [('W', raw[i:i + 1]) for i in range(len(raw))] + [('C',)]
+        sched = [1] + [0, 1] * (len(raw) + 2)
+        res = T.run_fd(kind, script, sched, [1000] * (len(raw) + 4), timed=True, encoding='utf-8')
+        got = b''.join(o[1] for o in res['outs'] if o[0] == 'd').decode('latin-1')
+        sigs.add((kind, 'text', tuple(o[0] for o in res['outs'])[:4]))
+        stats['text_runs'] = stats.get('text_runs', 0) + 1
+        bad = None
+        if any(o[0] == 'exc' for o in res['outs']):
+            bad = 'a read raised %s' % [o for o in res['outs'] if o[0] == 'exc'][0][1]
+        elif got.encode('latin-1', 'replace') != text.encode('latin-1', 'replace') or res['left']:
+            bad = 'delivered %r (+ %d bytes unread) of %r before %s' % (got, len(res['left']), text, res['outs'][-1][0])
+        elif res['outs'][-1] != ('eof',):
+            bad = 'no EOF after the peer closed: %r' % (res['outs'][-3:],)
+        if bad:
+            common.report(ctx, '%s/text/%s' % (kind, bad.split(' ')[0]), '%s transport, unicode mode, one byte per write: %s' % (kind, bad),
+                          dict(kind=kind, stage='stage_fd_text'))
+
+
 def stage_fd(ctx, stats, sigs):
     rng = ctx.rng
     n = 600 if ctx.quick() else 8000
@@ -195,7 +219,7 @@ def run(ctx):
         common.leanchecker(ctx, ['C06'])
     stats, sigs = {}, set()
     t0 = time.time(); stage_pty(ctx, stats, sigs); stats['pty_s'] = round(time.time() - t0, 1)
-    t0 = time.time(); stage_fd(ctx, stats, sigs); stats['fd_s'] = round(time.time() - t0, 1)
+    t0 = time.time(); stage_fd(ctx, stats, sigs); stage_fd_text(ctx, stats, sigs); stats['fd_s'] = round(time.time() - t0, 1)
     t0 = time.time(); stage_popen(ctx, stats, sigs); stats['popen_s'] = round(time.time() - t0, 1)
     t0 = time.time(); stage_volume(ctx, stats, sigs); stats['volume_s'] = round(time.time() - t0, 1)
     ctx.cov.update(stats)
